@@ -24,10 +24,11 @@ PID = "C04"
 SGR = ["\x1b[31m", "\x1b[1;32m", "\x1b[0m", "\x1b[m", "\x1b[38;5;208m", "\x1b[48;2;10;20;30m", "\x1b[4m", "\x1b[7;33;44m", "\x1b[39;49m",
        "\x1b[K"]
 WORDS = ["On", "branch", "main", "modified:", "foo.rs", "|", "2", "+-", "-", "+1", "- item", "index", "0.5%", "日本語", "é", "\t", "  ",
-         "Changes", "not", "staged", "(use", "\"git", "add\")", "=>", "@", "a@@b", "x--- y", "{", "}", "[ok]", "1234abcd", "warning:", ":", "12:"]
+         "Changes", "not", "staged", "(use", "\"git", "add\")", "=>", "@", "a@@b", "x--- y", "{", "}", "[ok]", "1234abcd", "deadbeef", "0a1b2c3d4e5f60718293a4b5c6d7e8f901234567", "warning:", ":", "12:"]
 OPTS = [[], ["--side-by-side"], ["--line-numbers"], ["--navigate"], ["--color-only"], ["--hyperlinks"], ["--diff-so-fancy"],
         ["--raw"], ["--width", "20"], ["--tabs", "4"], ["--keep-plus-minus-markers"], ["--relative-paths"], ["--diff-highlight"],
-        ["--syntax-theme", "none"], ["--dark"], ["--light"], ["--max-line-distance", "0.3"], ["--wrap-max-lines", "0", "--side-by-side"]]
+        ["--syntax-theme", "none"], ["--dark"], ["--light"], ["--max-line-length", "0"], ["--hyperlinks", "--hyperlinks-commit-link-format", "https://example.com/c/{commit}"],
+        ["--hyperlinks", "--hyperlinks-commit-link-format", "https://example.com/c/{commit}", "--hyperlinks-file-link-format", "file://{path}#{line}", "--line-numbers"], ["--max-line-distance", "0.3"], ["--wrap-max-lines", "0", "--side-by-side"]]
 MARKERS = ("commit ", "diff ", "@@", "old mode ", "new mode ", "Binary files ", "--- ", "+++ ", "Only in ", "Submodule ", "rename ", "copy ",
            "{", "deleted file", "new file", "similarity ", "index ")
 DIFF_STAT_RE = re.compile(r" ([^\| ][^\|]+[^\| ]) +(\| +[0-9]+ .+)")
@@ -49,6 +50,9 @@ def gtext_line(r):
         s = " " + s   # not a marker any more
     # CR variants
     x = r.random()
+    if x >= 0.26 and r.random() < 0.1:
+        # a byte that is not valid UTF-8 (latin-1 text): replaced by U+FFFD, nothing else changes - whatever the length limit
+        return s + " caf\udce9 " + r.choice(WORDS)
     if x < 0.08:
         s = s + "\r"                       # CRLF
     elif x < 0.14:
@@ -65,6 +69,10 @@ def expected_line(b):
     s = b
     if s.endswith(b"\r"):
         s = s[:-1]
+    try:
+        s.decode("utf-8")
+    except UnicodeDecodeError:
+        return s.decode("utf-8", "replace").encode("utf-8")   # the only change to a line that is not valid UTF-8
     i = s.rfind(b"\r")
     if i >= 0:
         rest = s[i + 1:].decode("utf-8", "replace")
@@ -163,10 +171,10 @@ def main(tier, replay=None):
     else:
         cases = gen_cases(tier, chk.seed)
     chk.rule = ("marker-free text lines with embedded SGR sequences, CR variants, tabs and Unicode: alone, before diffs, and as commit "
-                "messages between commits x 18 option sets; raw bytes compared; non-trivial = at least one line carries an escape sequence")
+                "messages between commits x 21 option sets; raw bytes compared; non-trivial = at least one line carries an escape sequence")
 
     def work(c):
-        inp = ("\n".join(c["lines"]) + "\n").encode("utf-8")
+        inp = ("\n".join(c["lines"]) + "\n").encode("utf-8", "surrogateescape")
         env = {"GIT_PREFIX": c["git_prefix"]} if c.get("git_prefix") else None
         return vlib.run_delta(["--no-gitconfig", "--paging", "never"] + c["opts"], stdin=inp, env_extra=env)
 
@@ -187,12 +195,14 @@ def main(tier, replay=None):
             text_idx = [i for i in text_idx if not DIFF_STAT_RE.search(term.strip(lines[i]))]
             if c["kind"] == "text" and len(text_idx) != len(c["text_idx"]):
                 continue
-        want = [expected_line(lines[i].encode("utf-8")) for i in text_idx]
+        want = [expected_line(lines[i].encode("utf-8", "surrogateescape")) for i in text_idx]
         outl = out.split(b"\n")
         why = []
         if c["kind"] == "text" and len(outl) == len(text_idx) + 1:
             # correspondence: every output line is the extracted model's ingest of the input line (Ingest.v)
             for i_, got in zip(text_idx, outl):
+                if "\udce9" in lines[i_]:
+                    continue    # the model covers the valid-UTF-8 path
                 cr_n += 1
                 rep = vm.ask("ingest", lines[i_].encode("utf-8").hex())
                 if not rep.startswith("OK") or bytes.fromhex(rep.split("\t")[1]) != got:
